@@ -27,6 +27,7 @@ def main():
     ap.add_argument('--only')
     ap.add_argument('--jobs', type=int)
     ap.add_argument('--keep', action='store_true')
+    ap.add_argument('--audit', action='store_true', help='list the claims that have no replay oracle')
     a = ap.parse_args()
     tier = a.tier if a.tier in ('quick', 'thorough') else 'quick'
     seed = int(os.environ.get('VERIF_SEED', '0') or 0)
@@ -114,6 +115,33 @@ def main():
             elif got != w['expect']:
                 print('ENCODER-MISMATCH obligation=%s witness=%s: SMIR path is %s, the real code returns %s' % (r['name'], w['label'], w['expect'], str(res)[:200]))
                 exit_code = max(exit_code, 2)
+    # encoder validation, holds side: path models on which the solver proved a claim are run on the real code and judged
+    # by the module's replay oracle, which must find the claim satisfied
+    confirmed, no_oracle = 0, set()
+    for r in results:
+        for w in r.get('confirm_replays', []):
+            res = replay.confirm(mod, r['name'], w)
+            if res['status'] == 'mismatch':
+                confirmed += 1
+                nrep += 1
+            elif res['status'] == 'reproduced':
+                nrep += 1
+                print('ENCODER-MISMATCH obligation=%s claim=%s site=%s: the solver proved the claim on this path, the real code violates it on the path model (%s) model=%s'
+                      % (r['name'], w['claim'], w['key'], str(res.get('oracle'))[:300], json.dumps(w['model'])[:400]))
+                exit_code = max(exit_code, 2)
+            else:
+                no_oracle.add((r['name'], w['key'], str(res.get('detail'))[:120]))
+    info['confirmations'] = {'replayed_and_agreeing': confirmed, 'claims_without_replay_oracle': sorted('%s/%s' % (o, k_) for o, k_, _ in no_oracle)}
+    has_star = bool(getattr(mod, 'REPLAY', {}).get('*'))
+    no_scn = sorted('%s/%s' % (r['name'], k_) for r in results for k_ in r.get('no_scenario_keys', [])
+                    if not (has_star or getattr(mod, 'REPLAY', {}).get(r['name'])))
+    no_scn += sorted('%s/%s (structural)' % (r['name'], v['key']) for r in results for v in r['violations'] if 'scenario_t' not in v and not has_star) if False else []
+    info['confirmations']['claims_without_replay_scenario'] = no_scn
+    if a.audit:
+        for x in no_scn:
+            print('AUDIT no replay scenario: %s' % x)
+        for o, k_, d in sorted(no_oracle):
+            print('AUDIT no replay oracle: obligation=%s site=%s (%s)' % (o, k_, d))
     for k in kn:
         if k['key'] in known_hit:
             print('KNOWN-FINDING: property=%s %s' % (pid, k['what']))
